@@ -31,7 +31,8 @@ RULE = ("all pairs of strings over {'/','.','a'} up to length 5 (quick) / 6 (tho
         "up to ~80 bytes); non-trivial = "
         "both arguments non-empty (join), both non-empty with the same rootedness (relative), contains a separator (preferred)")
 ASSUMPTIONS = [
-    "allocation succeeds (allocation failure of these functions is C07's subject); the result block is observed "
+    "allocation succeeds, or (X cases) every request is refused: then NULL is returned after at most one request and "
+    "nothing is written (fault placement in longer call sequences is C07's subject); the result block is observed "
     "through a tracking ZixAllocator (requested size, full content)",
     "strlen/memcpy/strncmp are libc's; the model takes strlen as the index of the NUL",
     "coq/PathJoinSpec.v is compared with libstdc++ (g++ -std=c++17 std::filesystem::path) on every generated case "
@@ -150,7 +151,8 @@ def corpus(ctx):
 def gen(ctx, seed, tier):
     r = ctx.rng("gen", seed)
     if seed != ctx.seed:            # search seeds: the exhaustive part does not depend on the seed
-        return random_cases(r, 6000 if tier == "quick" else 30000)
+        rc = random_cases(r, 6000 if tier == "quick" else 30000)
+        return rc + ["X " + c for c in rc[:300] if c[0] in "JRP" and " N" not in c]
     thorough = tier == "thorough"
     ss = [hx(s) for s in all_strings(6 if thorough else 5)]
     cases = []
@@ -180,6 +182,14 @@ def gen(ctx, seed, tier):
         for _ in range(500000):
             cases.append("J %s %s" % (s7[r.randrange(n7)], s7[r.randrange(n7)]))
     cases += random_cases(r, 30000 if not thorough else 200000)
+    # the same calls with an allocator that refuses every request (NULL, no write through it)
+    s3 = [hx(s) for s in all_strings(3 if not thorough else 4)]
+    for a in s3:
+        cases.append("X P " + a)
+        for b in s3:
+            cases.append("X J %s %s" % (a, b))
+            cases.append("X R %s %s" % (a, b))
+    cases += ["X " + c for c in random_cases(r, 600 if not thorough else 4000) if c[0] in "JRP" and " N" not in c]
     return cases
 
 
@@ -260,6 +270,8 @@ def _impl_one(ctx, cases):
 
 def _complete(case, line):
     k = case[0]
+    if k == "X":
+        return " calls=" in line and line.rstrip()[-1:].isdigit()
     if k == "I":
         return line.startswith("iter || ") and line.rstrip()[-1:].isdigit() and ("E" in line)
     if line.startswith(("rel=NULL", "join=NULL", "pref=NULL", "?")):
@@ -296,6 +308,19 @@ def _oracle(ctx, cases, spec):
 
 
 def run_model(ctx, cases):
+    # X <case>: failing allocator.  Model and spec lines are derived from the model's line for the plain case:
+    # NULL is returned; the allocator is asked once unless the plain call allocates nothing
+    plain = [c[2:] if c.startswith("X ") else c for c in cases]
+    ms, ss = _run_model_plain(ctx, plain)
+    for i, c in enumerate(cases):
+        if c.startswith("X "):
+            kind = {"J": "join", "R": "rel", "P": "pref"}.get(c[2], "?")
+            ms[i] = "%s=NULL || calls=%d" % (kind, 0 if "alloc=none" in ms[i] else 1)
+            ss[i] = "%s=NULL" % kind
+    return ms, ss
+
+
+def _run_model_plain(ctx, cases):
     sh = _shards(cases, SHARDS)
 
     def one(cs):
@@ -321,6 +346,8 @@ def run_model(ctx, cases):
 
 def nontrivial(c):
     t = c.split()
+    if t[0] == "X":
+        t = t[1:]
     if t[0] == "J":
         return t[1] not in ("-", "N") and t[2] not in ("-", "N")
     if t[0] == "R":
@@ -336,6 +363,10 @@ _SHR = {}
 
 def tokens(case):
     t = case.split()
+    _SHR["pre"] = ""
+    if t[0] == "X":
+        _SHR["pre"] = "X "
+        t = t[1:]
     _SHR["kind"] = t[0]
     _SHR["null"] = [x == "N" for x in t[1:]]
     _SHR["nargs"] = len(t) - 1
@@ -351,7 +382,7 @@ def untokens(toks):
     for i in range(_SHR["nargs"]):
         b = bytes(v for (j, v) in toks if j == i)
         args.append("N" if (_SHR["null"][i] and not b) else hx(b))
-    return " ".join([_SHR["kind"]] + args)
+    return _SHR["pre"] + " ".join([_SHR["kind"]] + args)
 
 
 def stats(cases, impl):
